@@ -1,11 +1,16 @@
 import DimodModel.Cpp
+import DimodModel.CppCover
+import DimodModel.CheckedCqm
 import DimodModel.Wire
 open Wire
 
 /-! Driver for the index-level C++ model (C20): reads the op lines of `harness/cpp/interp.cc` (numbers as
     `p/q`), keeps one model per slot `b0.. / q0..`, answers the states of the slots named by the op in the
     interpreter's field layout, or `skip` for an op it does not model (the harness then re-loads the slots).
-    `load X <bvt|-> n off lin adj vt lb ub`. -/
+    `load X <bvt|-> n off lin adj vt lb ub`.
+    `cx VT LB UB OBJ CONS op args…`: one call on a CQM given by its printed state (VT letters, LB / UB numbers, an expression
+    = `vars~lin~adj~off`, CONS = expressions joined by `;`, `-` = empty) through `Cqm.cstep` (`DimodModel/CheckedCqm.lean`);
+    answer: the state after in the same text, `UB` when the checked call `Cqm.cstep?` fails, `skip` for an op outside `COp`. -/
 
 namespace CppDriver
 
@@ -50,7 +55,7 @@ def parseRows (s : String) : Option (List (List (Nat × Rat))) :=
       | _ => none
 
 /-- result: new slots and the names whose states are reported; `none` = not modelled -/
-def step (s : Slots) (ws : List String) : Option (Slots × List String) :=
+def stepCore (s : Slots) (ws : List String) : Option (Slots × List String) :=
   let one (x : String) (m : CppM) : Option (Slots × List String) := some (put s x m, [x])
   match ws with
   | ["load", x, bvt, _n, off, lin, adj, vts, lb, ub] => do
@@ -132,10 +137,97 @@ def step (s : Slots) (ws : List String) : Option (Slots × List String) :=
   | ["qmfrombqm", x, y] | ["qmfrombqmf", x, y] => some (put s x (get s y).qmFromBqm, [x, y])
   | _ => none
 
+/-! ### one call on a CQM state (Expression / Constraint / CQM level) -/
+
+def vt4? (s : String) : Option VT4 :=
+  match s with
+  | "S" | "SPIN" => some .spin | "B" | "BINARY" => some .binary
+  | "I" | "INTEGER" => some .integer | "R" | "REAL" => some .real | _ => none
+
+def vt4Char : VT4 → String | .spin => "S" | .binary => "B" | .integer => "I" | .real => "R"
+
+def parseExprC (s : String) : Option Expr :=
+  match s.splitOn "~" with
+  | [vs, lin, adj, off] => do
+    let vars ← nats? vs
+    let lin ← rats? lin
+    let adj ← parseRows adj
+    let adj := if adj.length < vars.length then adj ++ List.replicate (vars.length - adj.length) [] else adj
+    let off ← parseRat? off
+    pure { vars := vars, idx := Expr.rebuildIdx vars, qb := { lin := lin, adj := adj, off := off } }
+  | _ => none
+
+def showExprC (e : Expr) : String :=
+  let rows := e.qb.adj.map fun nb => j (nb.map fun p => s!"{p.1}:{showRat p.2}")
+  s!"{j (e.vars.map toString)}~{j (e.qb.lin.map showRat)}~{String.intercalate "|" rows}~{showRat e.qb.off}"
+
+def showCqmC (m : Cqm) : String :=
+  s!"{String.join (m.vt.map vt4Char)} {j (m.lb.map showRat)} {j (m.ub.map showRat)} {showExprC m.obj} {String.intercalate ";" (m.cons.map fun k => showExprC k.e)}"
+
+def parseEOp (ws : List String) : Option EOp :=
+  match ws with
+  | ["al", g, b] => do pure (.addLinear (← g.toNat?) (← parseRat? b))
+  | ["sl", g, b] => do pure (.setLinear (← g.toNat?) (← parseRat? b))
+  | ["aq", gu, gv, b] => do pure (.addQuadratic (← gu.toNat?) (← gv.toNat?) (← parseRat? b))
+  | ["ri", gu, gv] => do pure (.removeInteraction (← gu.toNat?) (← gv.toNat?))
+  | ["rv", g] => do pure (.removeVar (← g.toNat?))
+  | ["sv", g, m, c] => do pure (.substitute (← g.toNat?) (← parseRat? m) (← parseRat? c))
+  | _ => none
+
+def parseCOp (ws : List String) : Option Cqm.COp :=
+  match ws with
+  | ["kadd"] => some .addConstraint
+  | ["krm", c] => do pure (.removeConstraint (← c.toNat?))
+  | ["kassign", c, d] => do pure (.assignConstraint (← c.toNat?) (← d.toNat?))
+  | ["kswap", c, d] => do pure (.swapConstraints (← c.toNat?) (← d.toNat?))
+  | ["crv", v] => do pure (.removeVariable (← v.toNat?))
+  | ["cfx", v, a] => do pure (.fixVariable (← v.toNat?) (← parseRat? a))
+  | ["csv", v, m, c] => do pure (.substituteVariable (← v.toNat?) (← parseRat? m) (← parseRat? c))
+  | ["cslb", v, x] => do pure (.setLowerBound (← v.toNat?) (← parseRat? x))
+  | ["csup", v, x] => do pure (.setUpperBound (← v.toNat?) (← parseRat? x))
+  | ["csvt", v, t] => do pure (.setVartype (← v.toNat?) (← vt4? t))
+  | w :: rest =>
+    if w.startsWith "o" then (parseEOp ((w.drop 1).toString :: rest)).map .objOp
+    else if w.startsWith "k" then
+      match rest with
+      | c :: rest' => do pure (.consOp (← c.toNat?) (← parseEOp ((w.drop 1).toString :: rest')))
+      | [] => none
+    else none
+  | [] => none
+
+def cqmLine (ws : List String) : String :=
+  match ws with
+  | vt :: lb :: ub :: obj :: cons :: op =>
+    let m? : Option Cqm := do
+      let vts ← (if vt = "-" then [] else vt.toList.map fun c => String.ofList [c]).mapM vt4?
+      let lb ← rats? lb
+      let ub ← rats? ub
+      let obj ← parseExprC obj
+      let cons ← (if cons = "-" then [] else cons.splitOn ";").mapM parseExprC
+      pure { vt := vts, lb := lb, ub := ub, obj := obj, cons := cons.map fun e => ({ e := e } : Cons) }
+    match m?, parseCOp op with
+    | some m, some o =>
+      match m.cstep? o with
+      | some _ => showCqmC (m.cstep o)
+      | none => "UB"
+    | _, _ => "skip"
+  | _ => "skip"
+
+/-- only `load` and the tokens of `Cpp.driverOps` (the list the coverage theorem `C20.abc_mutators_covered` speaks about)
+    are executed; everything else is answered `skip` -/
+def step (s : Slots) (ws : List String) : Option (Slots × List String) :=
+  match ws with
+  | w :: _ => if w = "load" || Cpp.driverOps.contains w then stepCore s ws else none
+  | [] => none
+
 partial def loop (h : IO.FS.Stream) (s : Slots) : IO Unit := do
   let line ← h.getLine
   if line.isEmpty then return ()
   let ws := (line.trimAscii.toString.splitOn " ").filter (· ≠ "")
+  if ws.head? = some "cx" then
+    IO.println (cqmLine (ws.drop 1))
+    loop h s
+  else
   match step s ws with
   | some (s', names) =>
     IO.println (String.intercalate " ## " (names.map fun k => showState k (get s' k)))
